@@ -22,7 +22,7 @@ from __future__ import annotations
 
 import time
 
-from .. import core, timeref, vt
+from .. import core, timed_ilv, timeref, vt
 from ..timeref import src_err
 
 PROPERTY = "C17"
@@ -30,7 +30,7 @@ LEVEL = "exploration"
 META = {
     "engine": "vtx",
     "technique": "bounded-exhaustive enumeration of (time-window operator instance, gap-re-timed timeline) on virtual time against nondeterministic "
-    "reference simulators (closure over same-instant orders), plus differential/partition runs for take_last/skip_last_with_time",
+    "reference simulators (closure over same-instant orders), plus differential/partition runs for take_last/skip_last_with_time; plus stateless exhaustive exploration of thread interleavings (bounded preemptions) of the operator on a real-time scheduler with the source on its own thread, timer and source notification due in the same instant",
     "text": "take/skip_with_time, take/skip_until_with_time (relative, timedelta, absolute datetime), timeout (relative, absolute, with and without "
     "fallback) and timeout_with_mapper are executed on the real code for every timeline of <=N elements placed before, at and after each boundary, "
     "alone and together with other same-instant arrivals; the observed (instant, notification) list and the fallback's subscription instants must be "
@@ -540,12 +540,15 @@ def run(ctx: core.Ctx):
         "not chosen by the oracle: it must be independent of unrelated arrivals and make take_last and skip_last complementary",
         "timeout with an absolute due time: switch when that instant is reached unless the source terminated before",
     ]
+    timed_ilv.run_part(ctx, "C17")  # E3: real-time scheduler, source on its own thread
     part = ctx.sharded(shard)
     ctx.cov["operators_covered"] = sorted(k[3:] for k in part.counters if k.startswith("op:"))
     ctx.cov["instances"] = sum(1 for _ in instances(ctx.tier, ctx.seed))
 
 
 def replay(case):
+    if isinstance(case, dict) and str(case.get("harness", "")).startswith("timed-threads|"):
+        return timed_ilv.replay("C17", case)
     tl = [tuple(x) for x in case["timeline"]]
     for inst in instances(case["tier"], case["seed"]):
         if inst.iid == case["instance"]:
